@@ -15,15 +15,16 @@ one() {
   : > $TMP/$n.res
   for c in $id $alt; do
     t0=$(date +%s)
-    PNC_REPO=$wt timeout 3000 ./check $c > $TMP/$n.$c.log 2>&1; rc=$?
+    PNC_REPO=$wt timeout ${SEED_TIMEOUT:-3000} ./check $c > $TMP/$n.$c.log 2>&1; rc=$?
     nv=$(grep -c '^VIOLATION' $TMP/$n.$c.log); nn=$(grep -c '^VIOLATION.*no-failing-input-found' $TMP/$n.$c.log)
     echo "$n	$c	rc=$rc	violations=$nv (of which no-failing-input-found: $nn)	$(tail -1 $TMP/$n.$c.log | sed 's/^.*obligations/obligations/')	$(( $(date +%s) - t0 ))s" >> $TMP/$n.res
   done
   git -C /repo worktree remove --force $wt
 }
 N=0
-for d in seeded/$G/; do n=$(basename $d); [ -f $d/patch.diff ] || continue
-  one $n & N=$((N+1)); if [ $((N % 2)) = 0 ]; then wait; fi
+if [ -n "${SEEDS:-}" ]; then LIST=$(for n in $SEEDS; do echo seeded/$n/; done); G=subset; else LIST=$(ls -d seeded/$G/); fi
+for d in $LIST; do n=$(basename $d); [ -f $d/patch.diff ] || continue
+  one $n & N=$((N+1)); if [ $((N % ${SEED_PAR:-2})) = 0 ]; then wait; fi
 done; wait
 cat $TMP/*.res | sort > $OUT.new
 if [ "$G" = "*" ]; then mv $OUT.new $OUT; else cat $OUT.new; python3 - $OUT $OUT.new <<'PY'
